@@ -48,7 +48,7 @@ def cases(tier, seed):
         d = bool(rs.rand() < .5)
         recs.append((['er', n, p, d, int(rs.randint(1 << 30))], d))
     for i, (g, d) in enumerate(recs):
-        out.append({'g': g, 'directed': d, 'ws': seed * 100 + i, 'schemes': ['bin', 'int', 'dyad', 'real', 'neartie', 'bigint', 'logu']})
+        out.append({'g': g, 'directed': d, 'ws': seed * 100 + i, 'schemes': ['bin', 'int', 'dyad', 'real', 'neartie', 'bigint', 'logu', 'const']})
     # sizes beyond any plausible fast-path threshold (hop tables are skipped there: O(n^4) oracle)
     for n in ((130, 260, 300) if thorough else (260,)):
         for d in (False, True):
@@ -70,7 +70,7 @@ def mean_offdiag(M):
 def check_matrix(REC, bct, A, L, scheme, directed, big=False):
     """L: length matrix on the support A (0 = absent)."""
     n = len(L)
-    exact = scheme in ('bin', 'int', 'dyad', 'neartie', 'bigint')
+    exact = scheme in ('bin', 'int', 'dyad', 'neartie', 'bigint', 'const')
     rtol = 0.0 if exact else 1e-12
     D = O.floyd(L)
     H = None if big else O.hop_sets(L, D, rtol=rtol)
